@@ -116,6 +116,9 @@ void cmb_resourceguard_terminate(struct cmb_resourceguard *rgp)
     cmi_hashheap_terminate((struct cmi_hashheap *)rgp);
 }
 
+/* The event that resumes a waiting process, defined below */
+static void wakeup_event_resource(void *vp, void *arg);
+
 /*
  * cmb_resourceguard_wait - Enqueue and suspend the calling process until it
  * reaches the front of the priority queue and its demand function returns true.
@@ -155,7 +158,18 @@ int64_t cmb_resourceguard_wait(struct cmb_resourceguard *rgp,
 
     /* Back here, possibly much later. Return the signal that resumed us. */
     if (sig != CMB_PROCESS_SUCCESS) {
-        cmi_hashheap_cancel((struct cmi_hashheap *)rgp, key);
+        if (!cmi_hashheap_cancel((struct cmi_hashheap *)rgp, key)) {
+            /*
+             * No longer in the queue: we were selected and our wakeup call is
+             * on its way, but something else (a timer, say) got to us first in
+             * the same instant. Cancel the call so it cannot reach us later,
+             * and pass the turn on to the next in line.
+             */
+            if (cmb_event_pattern_cancel(wakeup_event_resource, pp,
+                                         CMB_ANY_OBJECT) > 0u) {
+                (void)cmb_resourceguard_signal(rgp);
+            }
+        }
     }
 
     cmb_assert_debug(!cmi_hashheap_is_enqueued((struct cmi_hashheap *)rgp, key));
